@@ -463,17 +463,23 @@ pub fn fire_rete_ul_rules(
     facts: &mut std::collections::HashMap<String, String>,
 ) -> Vec<String> {
     let mut fired_rules = Vec::new();
+    // Remember fired rules locally as well: an action may rewrite or clear `facts`,
+    // which would erase the `<rule>_fired` flags and let rules re-fire forever
+    let mut fired_flags = std::collections::HashSet::new();
     let mut changed = true;
     while changed {
         changed = false;
         for (rule_name, node, action) in rules.iter_mut() {
             let fired_flag = format!("{}_fired", rule_name);
-            if facts.get(&fired_flag) == Some(&"true".to_string()) {
+            if fired_flags.contains(rule_name.as_str())
+                || facts.get(&fired_flag) == Some(&"true".to_string())
+            {
                 continue;
             }
             if evaluate_rete_ul_node(node, facts) {
                 action(facts);
                 facts.insert(fired_flag.clone(), "true".to_string());
+                fired_flags.insert(rule_name.clone());
                 fired_rules.push(rule_name.clone());
                 changed = true;
             }
